@@ -1,8 +1,9 @@
 (* Executable instances of the C03 model and specification for extraction.
    ExtrOcamlBasic only; N, Z, positive stay Coq datatypes; the regexp oracle
    is passed as an OCaml closure built from the verdict table of each case. *)
-From Verif Require Import Scalar.Spec Scalar.Model.
-From Coq Require Import List ZArith NArith.
+From Verif Require Import Scalar.Spec Scalar.Model Scalar.DecProofs Scalar.Theorems.
+From Coq Require Import List ZArith NArith Bool.
+Open Scope bool_scope.
 Import ListNotations.
 
 Definition c03_simplify (re : str -> str -> bool) (k : N) (x y : bound) : sres := simplify re k x y.
@@ -10,7 +11,49 @@ Definition c03_run (re : str -> str -> bool) (cs : list constr) : verdict := run
 Definition c03_run_with (re : str -> str -> bool) (cs : list constr) (a : atom) : verdict := run_with re cs a.
 Definition c03_sat_all (re : str -> str -> bool) (a : atom) (cs : list constr) : bool := sat_all re a cs.
 
+Definition c03_all_safe (cs : list constr) : bool := all_safe cs.
+
 (* driver helpers: decimal text <-> Z without OCaml bignums *)
 Definition c03_zpush (acc d : Z) : Z := (acc * 10 + d)%Z.
 Definition c03_zneg (z : Z) : Z := (- z)%Z.
 Definition c03_z_to_n (z : Z) : N := Z.to_N z.
+
+(* ---- vm_compute cross-check of the extraction and the OCaml driver ----
+   (used only by the generated file build/C03-*/vmcheck.v; codes: -2 bottom,
+   -3 incomplete, otherwise the index of the result atom among the case's atoms) *)
+Fixpoint str_same (s t : str) : bool :=
+  match s, t with
+  | [], [] => true
+  | a :: s', b :: t' => N.eqb a b && str_same s' t'
+  | _, _ => false
+  end.
+Definition atom_same (a b : atom) : bool :=
+  match a, b with
+  | ANull, ANull => true
+  | ABool x, ABool y => Bool.eqb x y
+  | AInt x, AInt y => Z.eqb x y
+  | AFloat x, AFloat y => Bool.eqb (dneg x) (dneg y) && N.eqb (dcoef x) (dcoef y) && Z.eqb (dexp x) (dexp y)
+  | AStr s, AStr t => str_same s t
+  | ABytes s, ABytes t => str_same s t
+  | _, _ => false
+  end.
+Fixpoint index_of (a : atom) (l : list atom) (i : Z) : Z :=
+  match l with
+  | [] => (-1)%Z
+  | b :: r => if atom_same a b then i else index_of a r (i + 1)%Z
+  end.
+Definition c03_code (atoms : list atom) (v : verdict) : Z :=
+  match v with
+  | RBottom => (-2)%Z
+  | RIncomplete => (-3)%Z
+  | RAtom a => index_of a atoms 0%Z
+  end.
+Definition c03_re_of_table (tbl : list (str * str * bool)) : str -> str -> bool :=
+  fun p s => existsb (fun e => let '(p', s', v) := e in str_same p p' && str_same s s' && v) tbl.
+Definition c03_ev_codes (tbl : list (str * str * bool)) (atoms : list atom) (cs : list constr) (probes : list atom) : list Z :=
+  let re := c03_re_of_table tbl in
+  c03_code atoms (run re cs) :: (if all_safe cs then 1 else 0)%Z ::
+  map (fun a => c03_code atoms (run_with re cs a)) probes ++
+  map (fun a => if sat_all re a cs then 1 else 0)%Z probes.
+Definition c03_sb_code (tbl : list (str * str * bool)) (k : N) (x y : bound) : Z :=
+  match simplify (c03_re_of_table tbl) k x y with SKeepX => 0 | SKeepY => 1 | SNone => 2 | SBottom => 3 end%Z.
